@@ -147,8 +147,8 @@ def gen_long_truth(rng, n_events=None):
     dt = 3600
     t0 = (rng.randint(631152000, 1893456000) // dt) * dt
     sy = rng.choice([0.125, 0.25, 0.5])
-    n_events = n_events or rng.randint(4, 7)
-    NZ = 2200 * (n_events + 1)
+    n_events = n_events or rng.randint(6, 8)
+    NZ = 2700 * (n_events + 1)
     top = float(rng.randint(-40, 120)) / 4
     Z = [top]
     for _ in range(NZ):
@@ -156,7 +156,7 @@ def gen_long_truth(rng, n_events=None):
     pos = rng.randint(200, 600)
     level, rain, events = [Z[pos]], [], []
     for ev in range(n_events):
-        m = max(0, pos - rng.randint(150, 500))
+        m = max(0, pos - rng.randint(300, 1100))
         rise = Z[m] - Z[pos]
         qn = rng.randint(2, 4)
         per = [round(rise / qn * 8) / 8] * (qn - 1)
@@ -169,7 +169,7 @@ def gen_long_truth(rng, n_events=None):
         rain.append(0.25)
         pos += 1
         level.append(Z[pos])
-        L = min(rng.randint(700, 2000), NZ - pos - 1)
+        L = min(rng.randint(1300, 2500), NZ - pos - 1)
         for _ in range(L):
             rain.append(0.0)
             pos += 1
@@ -330,6 +330,31 @@ def curve_failure(status, comps):
     if status[0] == "error" and status[1] == "AssertionError" and not sizes:
         return {"kind": "no_overlap"}
     return {"kind": "other", "status": list(status)}
+
+
+def judged_failure(ctx, t, zstep, cmd, status):
+    """`rise` / `recession` failed: is that what the model predicts for this dataset (no body of overlapping intervals,
+    no interval at all, or the listed known finding)?  Returns None when it is, else the `curve_failure` record."""
+    try:
+        m = model_pipeline(ctx, t, zstep)
+        fail = curve_failure(status, m[cmd + "_components"])
+    except Exception as e:  # noqa  (driver trouble: cannot judge, so do not excuse the failure)
+        return {"kind": "other", "status": list(status), "model_error": repr(e)[:200]}
+    if fail is None or fail["kind"] in ("no_overlap", "no_intervals", "main_body_dropped"):
+        return None
+    return fail
+
+
+def unexpected_failure(status):
+    """a `rise` / `recession` failure that is none of the refusals the tool is known to make on datasets without a
+    body of overlapping intervals (those are judged against the model's components where it matters)"""
+    if status[0] == "ok":
+        return False
+    if status[0] == "error" and status[1] == "ValueError" and ("max() iterable argument is empty" in status[2] or "empty series list" in status[2]):
+        return False
+    if status[0] == "error" and status[1] == "AssertionError" and not status[2]:
+        return False
+    return True
 
 
 def spread_and_truth(kind, t, truth):
